@@ -49,6 +49,15 @@ func Universe(instanceName string, n int) []Object {
 	return out
 }
 
+// UniverseWithEmpty is Universe, except that the FIRST object is the empty blob
+// (size 0), which several layers treat specially.
+func UniverseWithEmpty(instanceName string, n int) []Object {
+	out := Universe(instanceName, n)
+	f := digest.MustNewFunction(instanceName, remoteexecution.DigestFunction_MD5)
+	out[0] = Object{Digest: f.NewGenerator(0).Sum(), Data: []byte{}}
+	return out
+}
+
 // Call is one recorded back-end invocation.
 type Call struct {
 	Op      string // "Get", "GetFromComposite", "Put", "FindMissing"
